@@ -234,6 +234,8 @@ impl FlowSource for MemTableSource {
                     }
                 }
 
+                #[cfg(sneldb_verif)]
+                crate::verif::step("read.passive", "");
                 let guard = passive.lock().await;
                 self.collect_rows_from_memtable(
                     &*guard,
@@ -244,6 +246,11 @@ impl FlowSource for MemTableSource {
                     &mut emitted,
                 )
                 .await?;
+                #[cfg(sneldb_verif)]
+                {
+                    drop(guard);
+                    crate::verif::step("read.passive_done", "");
+                }
             }
 
             // Use sort_unstable_by for better performance - maintains relative order of equal elements
@@ -343,6 +350,8 @@ impl FlowSource for MemTableSource {
         }
 
         for passive in self.config.passive_memtables.iter() {
+            #[cfg(sneldb_verif)]
+            crate::verif::step("read.passive", "");
             let guard = passive.lock().await;
             emitted = self
                 .push_rows_from_memtable(
@@ -358,6 +367,11 @@ impl FlowSource for MemTableSource {
                     emitted,
                 )
                 .await?;
+            #[cfg(sneldb_verif)]
+            {
+                drop(guard);
+                crate::verif::step("read.passive_done", "");
+            }
 
             if limit.is_some() && emitted >= limit.unwrap() {
                 break;
